@@ -18,7 +18,7 @@ def struct_oracle(case, impl, model):
     if exp is None:
         return []
     out, st = exp
-    if st == "steps":
+    if st in ("steps", "toobig"):
         return []
     a = C.RunAns(impl[case.info.get("run_index", 0)])
     if a.kind in ("abort", "panic", "malformed"):
@@ -42,6 +42,8 @@ def prog_case(name, prog, rng=None, mode="lines", opts=None, info=None, line=Fal
     src = G.source(prog, mode, rng, xp)
     expect = structsem.run(prog)
     inf = {"src": src, "expect": expect, "check_class": check_class}
+    if expect[1] == "toobig":
+        inf["skip"] = True      # strings / lists grow beyond the oracle's size budget (e.g. doubling in a loop): not run at all (counted)
     inf.update(info or {})
     o = dict(opts or {})
     o.setdefault("spec", 1)   # also ask the model for unflatten + the Lean structured semantics (Spec/Sem.lean)
